@@ -375,8 +375,49 @@ def error_items():
         yield Item(["Error", "Display"], enum_src(g, vs), ("error", "enum", g.key, "plain", "source,ignore,not(source)"), std_derives=["Debug"])
 
 
+def special_items():
+    """Uninhabited field types, `?Sized` parameters, where-clauses on associated types, nested generics."""
+    g0 = GEN_BY_KEY["none"]
+    inf = "::core::convert::Infallible"
+    yield Item(["From", "Constructor", "Into", "Display", "Debug"], "pub struct @N@(%s);" % inf, ("special", "uninhabited-tuple1", "none", "plain", "-"))
+    yield Item(["From", "Constructor", "Debug"], "pub struct @N@ { a: %s, b: u8 }" % inf, ("special", "uninhabited-named2", "none", "plain", "-"))
+    yield Item(["From", "Display", "Debug", "IsVariant", "Unwrap", "TryUnwrap", "TryInto"], "pub enum @N@ { A(%s), B(u8), C }" % inf, ("special", "uninhabited-variant", "none", "plain", "-"))
+    yield Item(["Error", "Display"], '#[display("e")]\npub struct @N@ { source: %s }' % inf, ("special", "uninhabited-source", "none", "plain", "-"), std_derives=["Debug"])
+    yield Item(["Display", "Debug", "From", "IsVariant"], "pub enum @N@ {}", ("special", "empty-enum", "none", "plain", "-"))
+    yield Item(["Display", "Debug"], "pub enum @N@<const N: usize = 3> {}", ("special", "empty-enum", "constN=default", "plain", "-"))
+    # ?Sized parameters
+    yield Item(["Display", "Debug"], "pub struct @N@<T: ?::core::marker::Sized>(T);", ("special", "unsized-tail", "T:?Sized", "plain", "-"))
+    yield Item(["Debug"], "pub struct @N@<T: ?::core::marker::Sized> { a: u8, b: T }", ("special", "unsized-tail", "T:?Sized", "plain", "-"))
+    yield Item(["Deref", "DerefMut", "AsRef", "AsMut", "From", "Constructor"], "pub struct @N@<T: ?::core::marker::Sized>(::std::boxed::Box<T>);", ("special", "boxed-unsized", "T:?Sized", "plain", "-"))
+    yield Item(["Deref"], "#[deref(forward)]\npub struct @N@<T: ?::core::marker::Sized>(::std::boxed::Box<T>);", ("special", "boxed-unsized", "T:?Sized", "plain", "forward"))
+    yield Item(["Display"], '#[display("{}", _0)]\npub struct @N@<\'a, T: ?::core::marker::Sized>(&\'a T);', ("special", "ref-unsized", "'a,T:?Sized", "plain", "attr"))
+    # associated types, trait-bounded where clauses, higher-ranked bounds
+    yield Item(["Display", "Debug", "Constructor"], "pub struct @N@<T: Tr>(T::Assoc) where T::Assoc: ::core::marker::Copy;", ("special", "assoc-type", "T:Tr", "plain", "-"))
+    yield Item(["Debug", "From", "Constructor"], "pub struct @N@<T: Tr> { a: <T as Tr>::Assoc, b: ::core::marker::PhantomData<T> }", ("special", "assoc-type-qualified", "T:Tr", "plain", "-"))
+    yield Item(["Debug", "From", "Constructor", "Deref"], "pub struct @N@<F>(F) where F: for<'x> ::core::ops::Fn(&'x u8) -> &'x u8;", ("special", "hrtb-where", "F:Fn", "plain", "-"))
+    yield Item(["From", "Into", "Constructor", "Debug"], "pub struct @N@<'a, 'b: 'a, T: 'b + ::core::fmt::Debug>(&'a &'b T, ::std::vec::Vec<::core::option::Option<&'b T>>);", ("special", "nested-lifetimes", "'a,'b,T", "plain", "-"))
+    yield Item(["Add", "Sub", "Not", "Neg", "AddAssign", "Sum", "From", "Constructor"], "pub struct @N@<T, const A: usize, const B: usize>(T, T);", ("special", "two-consts-unused", "T,constA,constB", "plain", "-"))
+    yield Item(["Index", "IndexMut", "IntoIterator", "Deref", "DerefMut", "AsRef", "AsMut"], "pub struct @N@<T, const N: usize>([T; N]);", ("special", "array-field", "T,constN", "plain", "-"))
+    yield Item(["Debug", "Display"], '#[display("{a:?} {}", b.len())]\npub struct @N@<T, const N: usize> { a: [u8; N], b: ::std::vec::Vec<T> }', ("special", "array-field", "T,constN", "plain", "attr"))
+    yield Item(["IsVariant", "Unwrap", "TryUnwrap", "Debug"], "pub enum @N@<'a, T: 'a + ?::core::marker::Sized> { Borrowed(&'a T), Owned(::std::boxed::Box<T>), Nothing }", ("special", "cow-like", "'a,T:?Sized", "plain", "-"))
+    # many fields / many variants
+    yield Item(["From", "Into", "Constructor", "Debug", "Add", "Not"], "pub struct @N@(%s);" % ", ".join(["Tag"] * 12), ("special", "12-fields", "none", "plain", "-"))
+    yield Item(["From", "IsVariant", "Unwrap", "TryUnwrap", "TryInto", "Debug", "Display"], "pub enum @N@ { %s }" % ", ".join("V%d(%s)" % (i, t) for i, t in enumerate(["u8", "u16", "u32", "u64", "u128", "i8", "i16", "i32", "i64", "i128", "f32", "f64", "bool", "char"])),
+               ("special", "14-variants", "none", "plain", "-"))
+    # attribute options not covered elsewhere
+    yield Item(["Display"], '#[display("{}", ::core::format_args!("{_0:o}"))]\npub struct @N@(u8);', ("special", "nested-format-args", "none", "plain", "attr"))
+    yield Item(["Display"], '#[display("{_0:>+08.3e} {_1:#x?} {_2:w$}", w = 3)]\npub struct @N@(f64, u8, u16);', ("special", "rich-spec", "none", "plain", "attr"))
+    yield Item(["Display"], '#[display(rename_all = "SCREAMING_SNAKE_CASE")]\npub enum @N@ { FooBar, #[display(rename_all = "kebab-case")] BazQux, Plain(u8) }', ("special", "rename_all", "none", "plain", "rename_all"))
+    yield Item(["Pointer"], '#[pointer("{a:p} {:p}", *b)]\npub struct @N@<\'x> { a: &\'x u8, b: &\'x u16 }', ("special", "pointer", "'x", "plain", "attr"))
+    yield Item(["From"], "#[from(::std::borrow::Cow<'static, str>, ::std::string::String, &'static str)]\npub struct @N@(::std::borrow::Cow<'static, str>);", ("special", "from-types-paths", "none", "plain", "types"))
+    yield Item(["Into"], "#[into(ref((str, f64)))]\npub struct @N@ { #[into(ref)] #[into(skip)] a: u8, b: ::std::string::String, c: f64 }", ("special", "into-ref-skip", "none", "plain", "ref,skip"))
+    yield Item(["TryInto"], "#[try_into(owned, ref, ref_mut)]\npub enum @N@<T, const N: usize> { A([T; N]), B(::std::vec::Vec<T>), #[try_into(ignore)] C }", ("special", "try_into-generic", "T,constN", "plain", "owned,ref,ref_mut"))
+    yield Item(["Error", "Display"], '#[display("e")]\npub struct @N@<E> { #[error(source)] inner: E, #[error(not(backtrace))] backtrace: u8 }', ("special", "error-not-backtrace", "E", "plain", "source,not(backtrace)"), std_derives=["Debug"])
+    yield Item(["Error", "Display"], '#[display("e")]\npub struct @N@(::std::boxed::Box<dyn ::std::error::Error + ::core::marker::Send + ::core::marker::Sync + \'static>);', ("special", "error-boxed-dyn", "none", "plain", "inferred"), std_derives=["Debug"])
+
+
 def all_items():
-    return list(itertools.chain(ops_items(), fmt_items(), conv_items(), deleg_items(), enum_access_items(), error_items()))
+    return list(itertools.chain(ops_items(), fmt_items(), conv_items(), deleg_items(), enum_access_items(), error_items(), special_items()))
 
 
 def hostile_variants(item):
